@@ -30,7 +30,11 @@ HELPERS = {PI + "id", PI + "ignore"}
 
 
 def case_variants(s):
-    return {s, s.lower(), s.upper()}
+    """spellings of s that a case-insensitive literal may have matched: as written, all lower, all upper,
+    and two mixed ones (a consumer that compares against the upper and the lower spelling only is not exhaustive)"""
+    mixed1 = "".join(c.upper() if i % 2 == 0 else c.lower() for i, c in enumerate(s))
+    mixed2 = "".join(c.lower() if i % 2 == 0 else c.upper() for i, c in enumerate(s))
+    return {s, s.lower(), s.upper(), mixed1, mixed2}
 
 
 def expand_reps(seq, counts=(0, 1, 2)):
